@@ -9,18 +9,51 @@ from vlib import coregen, core, judge, tlc
 NPROCS = int(os.environ.get("VERIF_PROCS", "16"))
 
 
+def fwd_validated_multi(D):
+    """Does some method with two or more call sites forward its argument (directly or through further forwarding
+    methods) to a method that validates its arguments?"""
+    sites = D["sites"]
+    ncallers = {}
+    for s in sites:
+        ncallers[s["callee"]] = ncallers.get(s["callee"], 0) + 1
+
+    def reaches_validated(m, seen=()):
+        for s in sites:
+            if s["caller"] == m and s["argk"] == "f":
+                c = s["callee"]
+                if D["bodies"][c - 1]["validate"] or (c not in seen and reaches_validated(c, seen + (m,))):
+                    return True
+        return False
+
+    def multi(m, seen=()):
+        # m itself has several call sites, or is reached by forwarding from a method that has
+        if ncallers.get(m, 0) >= 2:
+            return True
+        return any(s["callee"] == m and s["argk"] == "f" and s["caller"] not in seen and multi(s["caller"], seen + (m,))
+                   for s in sites)
+
+    return any(B["kind"] == "M" and multi(b) and reaches_validated(b) for b, B in enumerate(D["bodies"], start=1))
+
+
 def make(args):
     seed, bad = args
     rng = random.Random(seed)
-    d = coregen.Gen(rng, p_rdyrun=0.45, p_badrun=0.7 if bad else 0.0, p_rel=0.35, p_wit=0.0, p_fsm=0.05,
-                    p_nested=0.25).design()
+    if seed % 3 == 1 and not bad:
+        # argument-forwarding family: methods pass (a function of) their own argument on to callees, some of which
+        # validate their arguments; several callers per method
+        d = coregen.Gen(rng, p_rdyrun=0.15, p_rel=0.3, p_wit=0.0, p_fsm=0.05, p_nested=0.1, p_fwdarg=0.7, p_validate=0.6,
+                        max_t=4, max_m=3, p_struct=0.3).design()
+    else:
+        d = coregen.Gen(rng, p_rdyrun=0.45, p_badrun=0.7 if bad else 0.0, p_rel=0.35, p_wit=0.0, p_fsm=0.05,
+                        p_nested=0.25).design()
     out = []
     for attempt in range(8):
         dd = copy.deepcopy(d)
         D = coregen.flatten(dd)
         try:
             cyc, msg = coregen.build(dd, netlist_only=True)
-            out.append({"design": D, "raised": False, "cycle": bool(cyc), "msg": msg, "seed": seed, "bad": bad, "attempt": attempt})
+            out.append({"design": D, "raised": False, "cycle": bool(cyc), "msg": msg, "seed": seed, "bad": bad, "attempt": attempt,
+                        "fwd_validated_multi": fwd_validated_multi(D)})
             break
         except Exception as ex:  # noqa: BLE001
             out.append({"design": D, "raised": True, "cycle": False, "msg": f"{type(ex).__name__}: {str(ex)[:200]}",
@@ -42,7 +75,8 @@ def run(rep):
         c = cases[x["tid"] - 1]
         cl = set(x["clauses"])
         if cl & {"WellFormedImpliesAcyclic", "ModelAcyclic"}:
-            rep.violation({"component": "core", "cfg": {"seed": c["seed"], "attempt": c["attempt"]},
+            rep.violation({"component": "core", "cfg": {"seed": c["seed"], "attempt": c["attempt"],
+                                                       "fwd_validated_multi": bool(c.get("fwd_validated_multi"))},
                            "clauses": sorted(cl & {"WellFormedImpliesAcyclic", "ModelAcyclic"}), "what": c["msg"],
                            "design": c["design"]})
     cov = rep.coverage
